@@ -44,8 +44,9 @@ fn spec(text: &str) -> DocSpec {
     if !text.contains(SEP) {
         return DocSpec::plain(text);
     }
-    let stys = [Sty::Text, Sty::Lit, Sty::Em];
-    DocSpec(text.split(SEP).enumerate().map(|(i, f)| (stys[i % 3], f.to_string())).collect())
+    // text, nested document, literal, emphasis, text, ..
+    let stys = [Sty::Text, Sty::Nested, Sty::Lit, Sty::Em];
+    DocSpec(text.split(SEP).enumerate().map(|(i, f)| (stys[i % 4], f.to_string())).collect())
 }
 
 pub fn skeleton(k: usize, text: &str) -> Opts {
@@ -217,7 +218,10 @@ pub fn check_text(unit: &Value, k: usize, text: &str, widths: &[usize], only_wid
     if only_width.is_none() || only_width == Some(0) {
         if let Some((d, full)) = help_doc(&p, &["--help"]) {
             // styled mode: a blank line that only exists across two tokens is not judged
-            let across = text.contains(SEP) && text.replace(SEP, "").matches("\n\n").count() != text.matches("\n\n").count();
+            // nor is one inside a nested document (it ends that document's own first paragraph;
+            // whether it also ends the enclosing text's is not specified)
+            let across = text.contains(SEP)
+                && (text.replace(SEP, "").matches("\n\n").count() != text.matches("\n\n").count() || text.split(SEP).enumerate().any(|(i, f)| i % 4 == 1 && f.contains("\n\n")));
             if !full && !across {
                 let o2 = skeleton(k, first_par(text));
                 if let Ok(p2) = build_checked(&o2) {
@@ -309,7 +313,7 @@ impl Check for C13 {
         check_text(unit, k, &text, &u.widths, Some(w), ctx);
     }
     fn rule(&self) -> String {
-        "documents = help (and sub-command help, and an error message) of 12 layout skeletons (item help with term widths around the tab stop, descr, header+footer, group title, positional help, command help, env row + fallback suffix, adjacent heading, long usage line) with the text slot ranging over EVERY concatenation of <=3 (thorough 4) fragments from {word, 120-char word, space, newline, blank line, newline+space, code line, é, 日本語, tab, NBSP, ESC sequence, --flag}, as one plain string and as a sequence of separately styled tokens (text / literal / emphasis; quick: every seventh width); each document rendered at every width (quick: 1..100, 120, 200, 300; thorough: 1..300) via the Display width and at 65535 as 'unwrapped'; (a) identical once whitespace is removed, (b) for widths >= 40 no line longer than width+2 unless what follows the indentation/term is a single unbreakable word or it is a code line, (c) monochrome(false) equals monochrome(true) of the same definition with the text cut at its first blank line; evaluation = one render; non-trivial = render at width > 1 satisfying (a),(b)".into()
+        "documents = help (and sub-command help, and an error message) of 12 layout skeletons (item help with term widths around the tab stop, descr, header+footer, group title, positional help, command help, env row + fallback suffix, adjacent heading, long usage line) with the text slot ranging over EVERY concatenation of <=3 (thorough 4) fragments from {word, 120-char word, space, newline, blank line, newline+space, code line, é, 日本語, tab, NBSP, ESC sequence, --flag}, as one plain string and as a sequence of separately styled tokens (text / literal / nested document / emphasis; quick: every seventh width); each document rendered at every width (quick: 1..100, 120, 200, 300; thorough: 1..300) via the Display width and at 65535 as 'unwrapped'; (a) identical once whitespace is removed, (b) for widths >= 40 no line longer than width+2 unless what follows the indentation/term is a single unbreakable word or it is a code line, (c) monochrome(false) equals monochrome(true) of the same definition with the text cut at its first blank line; evaluation = one render; non-trivial = render at width > 1 satisfying (a),(b)".into()
     }
     fn bounds(&self, tier: Tier) -> Value {
         json!({"fragments_per_string": tier.pick(3, 4), "widths": tier.pick("1..100, 120, 200, 300", "1..300"), "skeletons": 12})
